@@ -189,9 +189,14 @@ class SSH_Socket(ReadBuf, WriteBuf):
         e = None
         while s >= 0:
             s, e = self.recv()
-            if s < 0:
-                continue
             while self.unread_len > 0:
+                # TCP may deliver a line in several segments.  Unless the connection has ended, only consume complete lines and wait for the remainder of an unterminated one.
+                if s >= 0:
+                    pos = self._buf.tell()
+                    line_is_complete = self._buf.readline().endswith(b'\n')
+                    self._buf.seek(pos, 0)
+                    if not line_is_complete:
+                        break
                 line = self.read_line()
                 if len(line.strip()) == 0:
                     continue
